@@ -50,6 +50,9 @@ func (c *Ctx) schemeField(s oas.Scheme) string {
 	return ""
 }
 
+type detachedKey struct{}
+
+
 func modeSec(c *Ctx) {
 	if len(c.Ops) == 0 {
 		return
@@ -120,7 +123,15 @@ func modeSec(c *Ctx) {
 							cur.accepted[k2] = true
 						}
 						prev, _ := r.Context().Value(ctxTagKey{}).([]string)
-						nr := r.WithContext(context.WithValue(r.Context(), ctxTagKey{}, append(append([]string{}, prev...), k2)))
+						base := r.Context()
+						if cur != nil && cur.consulted%3 == 2 {
+							// an authenticator that answers with a request built on the
+							// application's own context, not derived from the incoming one:
+							// what it returns is what the handler must get
+							base = context.WithValue(context.Background(), detachedKey{}, true)
+							c.Stat("accepts_with_detached_context", 1)
+						}
+						nr := r.WithContext(context.WithValue(base, ctxTagKey{}, append(append([]string{}, prev...), k2)))
 						return []reflect.Value{reflect.ValueOf(nr), reflect.ValueOf(true)}
 					}
 				}
